@@ -75,4 +75,39 @@ static inline uint64_t xv_fnv(const void *p, size_t n, uint64_t h) {
 
 static inline uint64_t xv_bits(double v) { uint64_t b; memcpy(&b, &v, 8); return b; }
 
+/* ---------------------------------------------------------------- seeded formula generators (valid and hostile) */
+static const char *xv_syms[] = { "H", "He", "Li", "C", "N", "O", "F", "Na", "Mg", "Al", "Si", "P", "S", "Cl", "K", "Ca", "Ti", "Fe", "Cu", "Zn", "Ge", "As", "Br", "Sr", "Zr", "Ag", "Sn", "I", "Ba", "Gd", "W", "Au", "Pb", "U", "Pu", "Fm", "Rf", "Uuo", "Xx", "h", "Hh" };
+#define XV_NSYM ((int)(sizeof xv_syms / sizeof xv_syms[0]))
+static inline void xv_gen_formula(xv_rng *r, char *buf, size_t n, int depth) {
+  size_t o = strlen(buf); int terms = 1 + xv_below(r, 4), t;
+  for (t = 0; t < terms && o < n - 40; t++) {
+    int k = xv_below(r, 100);
+    if (k < 18 && depth < 4) { buf[o++] = '('; buf[o] = 0; xv_gen_formula(r, buf, n, depth + 1); o = strlen(buf); buf[o++] = ')'; buf[o] = 0; }
+    else { int s = xv_below(r, k < 92 ? 34 : XV_NSYM); o += snprintf(buf + o, n - o, "%s", xv_syms[s]); }
+    k = xv_below(r, 100);
+    if (k < 40) o += snprintf(buf + o, n - o, "%d", 1 + xv_below(r, 12));
+    else if (k < 55) o += snprintf(buf + o, n - o, "%d.%d", xv_below(r, 4), 1 + xv_below(r, 99));
+    else if (k < 58) o += snprintf(buf + o, n - o, "0");
+    else if (k < 60) o += snprintf(buf + o, n - o, "1.2.3");
+    buf[o] = 0;
+  }
+}
+static inline void xv_hostile(xv_rng *r, char *buf, size_t n) {
+  /* mutate a generated formula into one of the rejection classes */
+  size_t l; int k;
+  buf[0] = 0; xv_gen_formula(r, buf, n - 4, 0); l = strlen(buf);
+  switch (xv_below(r, 8)) {
+  case 0: buf[l++] = '('; break;
+  case 1: buf[l++] = ')'; break;
+  case 2: if (l) buf[xv_below(r, (uint32_t)l)] = ' '; break;
+  case 3: if (l) buf[xv_below(r, (uint32_t)l)] = (char)(1 + xv_below(r, 254)); break;
+  case 4: memmove(buf + 1, buf, l + 1); buf[0] = '7'; l++; break;
+  case 5: k = l ? xv_below(r, (uint32_t)l) : 0; memmove(buf + k + 2, buf + k, l - k + 1); buf[k] = 'X'; buf[k + 1] = 'x'; l += 2; break;
+  case 6: buf[0] = 0; l = 0; break;
+  default: buf[l++] = '.'; buf[l++] = '.'; break;
+  }
+  buf[l] = 0;
+}
+
+
 #endif
